@@ -60,7 +60,17 @@ def gen_rule(rnd, depth, odd=0.0):
 
 
 def gen_list(rnd):
-    return [[rnd.choice(['role:a', 'role:b', 'role:c', '@']) for _ in range(rnd.randint(1, 2))] for _ in range(rnd.randint(0, 2))]
+    """A legacy list-of-lists rule: inner lists (possibly empty), bare strings, the empty list."""
+    out = []
+    for _ in range(rnd.randint(0, 3)):
+        r = rnd.random()
+        if r < 0.2:
+            out.append([])
+        elif r < 0.35:
+            out.append(rnd.choice(['role:a', 'role:b', '@', '!', 'rule:base']))
+        else:
+            out.append([rnd.choice(['role:a', 'role:b', 'role:c', '@', '!', "'x':%(k)s"]) for _ in range(rnd.randint(1, 3))])
+    return out
 
 
 def variant(rnd, text):
